@@ -166,10 +166,14 @@ func (b *BoundedBacktracker) reset(state *BacktrackerState, haystackLen int) {
 
 	// Increment generation for fresh visited state (O(1) instead of O(n) clear)
 	state.Generation++
-	// Handle overflow by clearing array (every 65536 searches - rare)
+	// Handle overflow by clearing array (every 65536 searches - rare).
+	// The whole backing array is cleared, not just the part in use: entries
+	// beyond the current length keep marks of earlier, longer searches and
+	// would be taken for current ones when a later generation number repeats.
 	if state.Generation == 0 {
-		for i := range state.Visited {
-			state.Visited[i] = 0
+		full := state.Visited[:cap(state.Visited)]
+		for i := range full {
+			full[i] = 0
 		}
 		state.Generation = 1
 	}
